@@ -214,3 +214,90 @@ pub fn main(args: &[String]) -> i32 {
     println!("{}", json!({"scenarios": scns.len()}));
     0
 }
+
+// ---------------------------------------------------------------------------------------------
+// mass screening: the boundary classes of Gen_Field cannot reach operand sets of measure 2^-20 .. 2^-25 (an accumulator of the
+// binary inversion that needs one more reduction, a window of intermediate values ...).  The screen runs many uniformly random
+// operands through identities that use only the library's own operations and turns every operand set that fails one - plus a
+// few that do not - into an ordinary scenario; the verdict is TLC's, on the recorded results, like for every other scenario.
+// ---------------------------------------------------------------------------------------------
+fn screen<B: Fx>(n: u64, seed: u64, threads: u64) -> Vec<Value>
+where
+    B::PositiveInteger: WriteInt,
+{
+    let results: Vec<Vec<(B, B, bool)>> = std::thread::scope(|sc| {
+        let hs: Vec<_> = (0..threads)
+            .map(|t| {
+                sc.spawn(move || {
+                    let mut rng = crate::common::Rng(seed.wrapping_mul(0x9E37).wrapping_add(t));
+                    let mut found: Vec<(B, B, bool)> = vec![];
+                    let mut draw = |rng: &mut crate::common::Rng| -> B {
+                        let mut bytes = rng.u128().to_le_bytes().to_vec();
+                        bytes.truncate(B::ELEMENT_BYTES);
+                        // uniform below 2^bits, rejected above the modulus
+                        if B::MODULUS_BITS % 8 != 0 {
+                            let last = bytes.len() - 1;
+                            bytes[last] &= (1u16 << (B::MODULUS_BITS % 8)) as u8 - 1;
+                        }
+                        B::read_from_bytes(&bytes).unwrap_or(B::ONE)
+                    };
+                    for i in 0..n / threads {
+                        let x = draw(&mut rng);
+                        let y = draw(&mut rng);
+                        let r = guarded(|| {
+                            let xi = x.inv();
+                            (x == B::ZERO || x * xi == B::ONE)
+                                && (x == B::ZERO || (y / x) * x == y)
+                                && x.double() == x + x
+                                && x.square() == x * x
+                                && (x + y) - y == x
+                                && (x - y) + y == x
+                                && x + (-x) == B::ZERO
+                                && x.cube() == x * x * x
+                        });
+                        let bad = !matches!(r, Ok(true));
+                        if (bad && found.len() < 24) || (i < 1 && t < 4) {
+                            found.push((x, y, bad));
+                        }
+                    }
+                    found
+                })
+            })
+            .collect();
+        hs.into_iter().map(|h| h.join().unwrap()).collect()
+    });
+    let op = |op: &str, d: usize, a: usize, b: usize| json!({"op": op, "d": d, "a": a, "b": b, "e": []});
+    let mut out = vec![];
+    let mut suspects = 0;
+    for (x, y, bad) in results.into_iter().flatten() {
+        if bad {
+            suspects += 1;
+            if suspects > 24 {
+                continue;
+            }
+        }
+        let ini = |v: Vec<u8>| json!({"kind": "new", "v": v});
+        out.push(json!({"screen": true, "suspect": bad,
+            "inits": [ini(int_bytes(x)), ini(int_bytes(y)), ini(int_bytes(B::from(3u8))), ini(int_bytes(x))],
+            "ops": [op("inv", 3, 0, 0), op("mul", 2, 0, 3), op("div", 2, 1, 0), op("mul", 2, 2, 0), op("double", 2, 0, 0), op("square", 2, 0, 0),
+                    op("cube", 2, 0, 0), op("add", 2, 0, 1), op("sub", 2, 2, 1), op("neg", 2, 0, 0), op("sub", 2, 0, 1), op("add", 2, 2, 1)]}));
+    }
+    out
+}
+
+pub fn main_screen(args: &[String]) -> i32 {
+    let field = arg_value(args, "--field").expect("--field");
+    let n: u64 = arg_value(args, "--n").and_then(|s| s.parse().ok()).unwrap_or(1_000_000);
+    let seed: u64 = arg_value(args, "--seed").and_then(|s| s.parse().ok()).unwrap_or(1);
+    let threads: u64 = arg_value(args, "--threads").and_then(|s| s.parse().ok()).unwrap_or(8);
+    let scns = match field {
+        "f62" => screen::<f62::BaseElement>(n, seed, threads),
+        "f64" => screen::<f64::BaseElement>(n, seed, threads),
+        "f128" => screen::<f128::BaseElement>(n, seed, threads),
+        _ => return 2,
+    };
+    for s in &scns {
+        println!("{}", s);
+    }
+    0
+}
